@@ -138,7 +138,7 @@ check("C19", "exploration",
 ADDITIONS = {
  "C01": "Added in session 3: marker paths sharing a plain upper-case prefix (/A/x-@m, /A/y-@m); host-focus universe with a second rule on the longer host pattern and the same dynamic host in another casing (10 rules).",
  "C02": "Added in session 3: r12 (a header condition shared with r5 inside ONE header matcher) and r13 (host \"\" = any host); 15 variants / 13 ids.",
- "C03": "Added in session 3: the six context-loss signatures are fixed in /repo (856299d) and suppress nothing any more; a curated body with end tags that close nothing inside a buffered target.",
+ "C03": "Added in session 3: the six context-loss signatures are fixed in /repo (856299d) and suppress nothing any more; a curated body with end tags that close nothing inside a buffered target; bodies that are NOT valid UTF-8 (one 0xFF at every 5th / every position of 3 / 8 curated documents x 4 filter lists): the by-design divergence of the error fallback is one open finding, any loss / duplication / permutation of bytes on such a body has its own signature.",
  "C05": "Added in session 3: controls are the full product reset x stop x sampling{none,0,100} (12), a payload overriding one header shared by all rules, unit ids on every rule and filter; every case is also built and observed with a UnitTrace handed to every call (same action JSON, same effects, trace rule ids == applied ids).",
  "C06": "Added in session 3: requests at instants 400 us / 1 ns before and 999.6 ms / 1 s - 1 ns after every probe instant (the probe space puts its instants ON the window boundaries); rules whose target / header / body values have blank edges, are empty or contain control characters.",
  "C07": "Added in session 3: marker expressions with named / unnamed groups of their own that accept the baseline values.",
@@ -160,7 +160,7 @@ for pid, c in CHECKS.items():
         c["level_claimed"]["text"] += " " + ADDITIONS[pid]
     if pid not in ("C07", "C16"):
         c["level_claimed"]["text"] += COMMON
-CHECKS["C03"]["level_note"] = "Bodies outside the corpus are not covered; compressed chains are C14; bodies that are not valid UTF-8 are C04's subject (a one-chunk run fails as a whole and passes through, a chunked run has already filtered the earlier chunks: invariance cannot hold there by design of the error fallback). The lexical-context findings of the pinned tree are fixed in /repo (856299d)."
+CHECKS["C03"]["level_note"] = "Bodies outside the corpus are not covered; compressed chains are C14. One open finding (known_findings.json): on a body that is not valid UTF-8 a one-chunk run passes through as a whole while a chunked run has already filtered the chunks before the fault. The lexical-context findings of the pinned tree are fixed in /repo (856299d)."
 
 ALL = [f"C{n:02d}" for n in range(1, 20)]
 
